@@ -305,9 +305,77 @@ func TestConcurrent(t *testing.T) {
 	if vp.Variant() != "conc" {
 		t.Skip("runs in the conc variant (-race)")
 	}
+	vp.RunConcurrent(t, foldLongProp, 60, 32, 8)
 	vp.RunConcurrent(t, foldProp, 150, 64, 8)
 	vp.RunConcurrent(t, splitProp, 100, 64, 8)
 }
+
+// longAlphabets are the alphabets of the long-operand generator: few distinct
+// letters, so prefixes of the needle recur in the haystack.
+var longAlphabets = [][]rune{
+	[]rune("abAB"), []rune("abcABC-: 0"), []rune("kKKsSſaA"), []rune("aAéÉσςΣ世"),
+}
+
+// foldLongProp covers operand lengths that the short generator never reaches:
+// haystacks around every power of two up to 257 bytes and needles of any
+// length up to the haystack's, derived from a window and then broken at one
+// (usually late) position, so that a long prefix of the needle occurs in the
+// haystack while the whole needle does not.
+var foldLongProp = vp.Register(vp.Prop[FoldCase]{
+	Kind: "c13.fold-long", Base: 40000,
+	Gen: func(t *rapid.T) FoldCase {
+		alphabet := rapid.SampledFrom(longAlphabets).Draw(t, "alphabet")
+		var n int
+		if rapid.Bool().Draw(t, "boundary") {
+			n = rapid.SampledFrom([]int{8, 16, 32, 64, 128, 256}).Draw(t, "pow") + rapid.IntRange(-2, 2).Draw(t, "delta")
+		} else {
+			n = rapid.IntRange(5, 300).Draw(t, "n")
+		}
+		rs := make([]rune, 0, n)
+		size := 0
+		for size < n {
+			r := rapid.SampledFrom(alphabet).Draw(t, "r")
+			if size+utf8.RuneLen(r) > n {
+				r = 'a'
+			}
+			rs = append(rs, r)
+			size += utf8.RuneLen(r)
+		}
+		i := rapid.IntRange(0, len(rs)-1).Draw(t, "i")
+		k := rapid.IntRange(1, len(rs)-i).Draw(t, "k")
+		w := slices.Clone(rs[i : i+k])
+		for j := range w {
+			if rapid.IntRange(0, 3).Draw(t, "swap") == 0 {
+				w[j] = foldPartner(t, w[j])
+			}
+		}
+		switch rapid.IntRange(0, 3).Draw(t, "break") {
+		case 0: // a positive
+		case 1: // broken at the last rune
+			w[len(w)-1] = '#'
+		case 2: // broken somewhere
+			w[rapid.IntRange(0, len(w)-1).Draw(t, "at")] = '#'
+		default: // runs past the end of the haystack
+			w = append(w, rs[:rapid.IntRange(1, min(len(rs), 40)).Draw(t, "extra")]...)
+		}
+		return FoldCase{S: string(rs), Sub: string(w)}
+	},
+	Check: func(c FoldCase) error {
+		want, _ := refContainsFold(c.S, c.Sub)
+		vp.Class(fmt.Sprintf("fold-long:%v", want))
+		if len(c.S) > 32 && len(c.Sub) > 8 {
+			vp.Class("fold-long:haystack>32-needle>8")
+			vp.NonTrivialStr("c13.fold-long", c.S, c.Sub)
+			vp.Sample(fmt.Sprintf("fold-long:%v", want), c)
+		}
+		if len(c.S)+len(c.Sub) > 64 && len(c.S) <= 64 {
+			vp.Class("fold-long:haystack<=64-sum>64")
+		}
+		return checkFold(c)
+	},
+})
+
+func TestFoldLong(t *testing.T) { vp.Run(t, foldLongProp) }
 
 func TestFold(t *testing.T)   { vp.Run(t, foldProp) }
 func TestSplit(t *testing.T)  { vp.Run(t, splitProp) }
